@@ -25,7 +25,7 @@ from sim import core, evidence, isolate, regmodel, report, runner, simfs  # noqa
 
 PROP = "C18"
 SCRIPT = os.path.join("checks", "c18.py")
-FAULT_KINDS = ["EIO", "EMFILE", "ENOENT", "short", "torn", "badutf8"]
+FAULT_KINDS = ["EIO", "EMFILE", "ENOENT", "short", "torn", "badutf8", "LISTDIR_EIO"]
 _CODE = None
 
 
